@@ -539,6 +539,11 @@ func (r *UnitRun) applyContractSelf(st *State, callee *Unit, recv *Val, args []V
 	}
 	for i, c := range callee.Defined {
 		goal := r.specBool(env, c, "defined-clause of "+callee.Name)
+		st := st
+		if len(r.unit.UsesDef) > 0 {
+			st = st.clone()
+			r.assumeNamed(st, r.unit.UsesDef)
+		}
 		r.oblige(st, "def", fmt.Sprintf("%s.%d", site, i), goal, e, "result of "+callee.Name+" is defined (finite): "+c.Text, c.Tags)
 	}
 	// ownership transfer
